@@ -1,6 +1,7 @@
 """C09 - equality is a structural equivalence and deep copy gives an equal, disjoint tree."""
 import os
 import vlib
+from checks import world
 
 FINISH = dict(level="model_checking",
               rule="TLC: JsonValue!Equal is reflexive (NaN-free), symmetric, transitive over all triples of a 32-value "
@@ -32,6 +33,8 @@ def run(ck):
     deaths = vlib.run_executions(exe, lambda st: ["c09", "drive", st, n], n, tp, timeout=1200)
     vlib.conformance(ck, "V:pairs-twins-mutations-copies", "TraceJsonValue", "trace.cfg", tp, deaths, diag_of, min_events=n, timeout=1800,
                      split_every=300)
+    # the composed object model (World.tla, model-checked under C05): equality / copies / serialization of trees with a history
+    world.run_world(ck, exe, 2000 if thorough else 150, first_exec=100000, mc=False)
 
 
 def replay(path):
@@ -41,7 +44,7 @@ def replay(path):
     tp = path + ".ndjson"
     with open(tp, "w") as f:
         f.write("\n".join(x for x in d["trace"] if x.startswith("{")) + "\n")
-    r = vlib.validate_traces("TraceJsonValue", "trace.cfg", [tp])[0]
+    r = vlib.validate_traces("TraceWorld" if d["diagnosis"].get("world") else "TraceJsonValue", "trace.cfg", [tp])[0]
     os.unlink(tp)
     print("trace %s" % ("accepted" if r["accepted"] else "rejected at line(s) %s" % r["lines"]))
     return 0 if r["accepted"] else 1
